@@ -54,5 +54,4 @@ def run_isolated(fn, *args, caching=True):
     try:
         return ctx.run(body)
     finally:
-        # suspended generators created by the case die here, inside no particular context
-        gc.collect(0)
+        pass
